@@ -167,10 +167,12 @@ def canonical_parser_setters(program):
 
 def normalise(program):
     known = _known()
+    skipped = []
     try:
         setters = canonical_parser_setters(program)
-    except Exception:
+    except Exception as e:
         setters = 0
+        skipped.append("setters: %s" % type(e).__name__)
     roles = role_functions(program)
     stats = {"inlined_call_sites": 0, "helpers": {}, "propagated_uses": 0, "constant_reads_inlined": 0}
 
@@ -227,7 +229,8 @@ def normalise(program):
         kn = set(known.get(m.name, {}).get("<assigned>", []))
         try:
             stats["constant_reads_inlined"] += inline.inline_constants(m, kn)
-        except Exception:
+        except Exception as e:
+            skipped.append("constants %s: %s" % (m.name, type(e).__name__))
             continue
         # class-level bindings may have been rewritten: refresh the model's views of them
         for c in m.classes.values():
@@ -249,14 +252,16 @@ def normalise(program):
         for f in list(m.funcs.values()) + [f for c in m.classes.values() for f in c.methods.values()]:
             try:
                 stats["dispatch_tables_expanded"] += inline.devirtualise(f.node)
-            except Exception:
+            except Exception as e:
+                skipped.append("dispatch %s: %s" % (f.qualname, type(e).__name__))
                 continue
     stats["walrus_hoisted"] = 0
     for m in program.modules.values():
         for f in list(m.funcs.values()) + [f for c in m.classes.values() for f in c.methods.values()]:
             try:
                 stats["walrus_hoisted"] += inline.hoist_walrus(f.node)
-            except Exception:
+            except Exception as e:
+                skipped.append("walrus %s: %s" % (f.qualname, type(e).__name__))
                 continue
 
     inl = inline.Inliner(resolve)
@@ -329,8 +334,10 @@ def normalise(program):
     for f in program.all_funcs():
         try:
             stats["propagated_uses"] += inline.propagate_paths(f)
-        except Exception:
+        except Exception as e:
+            skipped.append("paths %s: %s" % (f.qualname, type(e).__name__))
             continue
     stats["setter_calls_restored"] = setters
+    stats["passes_skipped_on_error"] = skipped
     program.normalised = stats
     return stats
